@@ -133,6 +133,12 @@ class Check(Property):
                 m = u.Quantity(Fraction(x), a).to(b).magnitude
                 return frac_s(Fraction(m))
             out.append(capture(one))
+            # "every observable answer": the same through the registry-level accessors (they keep their own memos)
+            for acc in ("get_base_units", "get_root_units"):
+                def two(a=a, acc=acc):
+                    f, un = getattr(u, acc)(a)
+                    return [frac_s(Fraction(f)), sorted([k, frac_s(Fraction(e))] for k, e in un._units.items())]
+                out.append(capture(two))
         return out
 
     def active_j(self, u):
